@@ -19,6 +19,9 @@ pub struct C05Case {
     pub asymmetric: bool,
     /// extra delay (ms) between "mutually Down" and healing
     pub heal_delay_ms: u32,
+    /// how many times the same partition is applied and healed (1 or 2)
+    #[serde(default)]
+    pub cycles: u8,
 }
 
 fn no_trouble(_sim: &Sim, info: &StepInfo) -> Result<(), Fail> {
@@ -65,8 +68,17 @@ pub fn exec(c: &C05Case, out: &mut CaseOut) -> Result<(), Fail> {
     let a = side_a(c);
     let b: BTreeSet<usize> = (0..n).filter(|i| !a.contains(i)).collect();
     let old_ids: Vec<Id> = (0..n).map(|i| sim.identity(i)).collect();
+    let cycles = c.cycles.clamp(1, 2);
+    let mut t_split = sim.now;
+    let mut t_heal = sim.now;
+    let mut steps_at_heal = sim.steps;
+    let mut stale_delivery = false;
+    let mut converged_at: Option<u64> = None;
+    let ad = spec.cfg.periodic_announce_down.as_ref().map(|p| p.every_ms as u64 * MS).unwrap_or(period);
+    for _cycle in 0..cycles {
+    let ids_at_split: Vec<Id> = (0..n).map(|i| sim.identity(i)).collect();
     // --- partition
-    let t_split = sim.now;
+    t_split = sim.now;
     if c.asymmetric {
         let victim = *a.iter().next().unwrap();
         sim.block_to = Some(sim.nodes[victim].addr);
@@ -76,7 +88,7 @@ pub fn exec(c: &C05Case, out: &mut CaseOut) -> Result<(), Fail> {
     // hold until both sides list the other side Down (asymmetric: until everyone else lists the victim Down)
     let hold_limit = t_split + (4 * n as u64 + 10) * period + 2 * spec.cfg.suspect_to_down_ms as u64 * MS;
     let mutually_down = |sim: &Sim| -> bool {
-        let lists_down = |i: usize, j: usize| !sim.active_ids(i).contains(&old_ids[j]);
+        let lists_down = |i: usize, j: usize| !sim.active_ids(i).contains(&ids_at_split[j]);
         if c.asymmetric {
             let v = *a.iter().next().unwrap();
             b.iter().all(|i| lists_down(*i, v))
@@ -99,13 +111,12 @@ pub fn exec(c: &C05Case, out: &mut CaseOut) -> Result<(), Fail> {
     // --- heal
     sim.partition = None;
     sim.block_to = None;
-    let t_heal = sim.now;
-    let steps_at_heal = sim.steps;
+    t_heal = sim.now;
+    steps_at_heal = sim.steps;
     let notes_at_heal = sim.notes.len();
-    let ad = spec.cfg.periodic_announce_down.as_ref().map(|p| p.every_ms as u64 * MS).unwrap_or(period);
+    let _ = notes_at_heal;
+    converged_at = None;
     let deadline = t_heal + std::env::var("C05_DEADLINE").ok().and_then(|s| s.parse().ok()).unwrap_or(2 * n as u64 + 6) * ad;
-    let mut converged_at = None;
-    let mut stale_delivery = false;
     while sim.now < deadline {
         let until = (sim.now + period).min(deadline);
         let ids_now: Vec<Id> = (0..n).map(|i| sim.identity(i)).collect();
@@ -150,6 +161,7 @@ pub fn exec(c: &C05Case, out: &mut CaseOut) -> Result<(), Fail> {
         "the cluster re-converged but did not stay converged for 2n more probe periods\n{}",
         sim.describe()
     );
+    } // cycles
     // every instance that was told it is down: Rejoin(new) with new winning against old, never Defunct, Active afterwards
     let mut renewed_a = 0;
     let mut renewed_b = 0;
@@ -199,7 +211,9 @@ pub fn exec(c: &C05Case, out: &mut CaseOut) -> Result<(), Fail> {
     out.max("reconvergence_in_announce_to_down_periods_x10", took * 10 / ad);
     out.max("reconvergence_percent_of_bound", took * 100 / ((2 * n as u64 + 6) * ad));
     out.class(if c.asymmetric { "asymmetric_false_death" } else { "two_sided_split" });
-    let _ = notes_at_heal;
+    if cycles > 1 {
+        out.class("two_partition_cycles");
+    }
     if renewed_a > 0 && renewed_b > 0 {
         out.class("both_sides_renewed");
     }
@@ -230,12 +244,12 @@ impl Part for PartitionPart {
         p.announce_down = Some((3, 8));
         p.join_formation = 1;
         p.inject_formation = 3;
-        (cluster_spec(&p), proptest::collection::vec(any::<u16>(), 1..6), prop_oneof![3 => Just(false), 1 => Just(true)], 0..5000u32)
-            .prop_map(|(mut spec, side, asymmetric, heal_delay_ms)| {
+        (cluster_spec(&p), proptest::collection::vec(any::<u16>(), 1..6), prop_oneof![3 => Just(false), 1 => Just(true)], 0..5000u32, prop_oneof![3 => Just(1u8), 1 => Just(2u8)])
+            .prop_map(|(mut spec, side, asymmetric, heal_delay_ms, cycles)| {
                 if matches!(spec.formation, Formation::Join { .. }) && spec.cfg.periodic_announce.is_none() {
                     spec.cfg.periodic_announce = Some(crate::inst::Periodic { every_ms: 2000, num: 1 });
                 }
-                C05Case { spec, side, asymmetric, heal_delay_ms }
+                C05Case { spec, side, asymmetric, heal_delay_ms, cycles }
             })
             .boxed()
     }
@@ -254,7 +268,7 @@ pub fn run(ctx: &Ctx, report: &mut Report) -> EvidenceMeta {
     ctx.run_part(&PartitionPart, report);
     EvidenceMeta {
         level: "fault_enumeration",
-        rule: "simulated clusters of 3..=10 members with renewable identities, notify_down_members and periodic_announce_to_down_members (1..3 members every 3..8 probe periods) enabled; a generated two-sided split (side sizes 1..n/2, members chosen at random) or the one-way variant (only traffic towards one member is cut) is held until both sides (resp. everyone else) list the other side Down - verified on the instances, otherwise the case is discarded and counted - then healed after a generated delay; latencies, seeds, fan-out, max_transmissions 3..10 and periodic tasks are generated. Oracle: within (2n+6) announce-to-down periods after healing every live instance's iter_members() equals exactly the current identities of all others; no instance ever notifies Defunct; every Rejoin(new) differs from and wins against the previous identity, the identity held equals the last Rejoin, and an Active follows the last Rejoin. Non-trivial: both sides renewed at least one identity and a datagram addressed to a superseded identity was delivered after healing (or the asymmetric variant with a renewal); distinct = (n, split shape, variant, renewals per side, stale delivery, announce-to-down parameters)."
+        rule: "simulated clusters of 3..=10 members with renewable identities, notify_down_members and periodic_announce_to_down_members (1..3 members every 3..8 probe periods) enabled; a generated two-sided split (side sizes 1..n/2, members chosen at random) or the one-way variant (only traffic towards one member is cut) is held until both sides (resp. everyone else) list the other side Down - verified on the instances, otherwise the case is discarded and counted - then healed after a generated delay; in a quarter of the cases the same partition is applied and healed a second time (remove_down_after stays far longer than the run, as the configuration documentation demands: a Down record forgotten before the heal cannot be announced to); latencies, seeds, fan-out, max_transmissions 3..10 and periodic tasks are generated. Oracle: within (2n+6) announce-to-down periods after healing every live instance's iter_members() equals exactly the current identities of all others; no instance ever notifies Defunct; every Rejoin(new) differs from and wins against the previous identity, the identity held equals the last Rejoin, and an Active follows the last Rejoin. Non-trivial: both sides renewed at least one identity and a datagram addressed to a superseded identity was delivered after healing (or the asymmetric variant with a renewal); distinct = (n, split shape, variant, renewals per side, stale delivery, announce-to-down parameters)."
             .into(),
         assumptions: vec![
             "outside the partition the transport and timers are fault-free".into(),
